@@ -235,9 +235,12 @@ def check(ctx, tier):
     obs.extend(o_enum)
     o_src, n_cons = source_coverage(ctx)
     obs.extend(o_src)
+    from ..rules import null
+    o_given, n_truth = ctx.attempt(null.given_is_not_none, ctx, "D-c", default=([], 0))
+    obs.extend(o_given)
     exceptions.apply(obs)
     floors = [Floor("R-TABLE rows evaluated", rows, 220), Floor("R-ENUM dispatch tests", n_dispatch, 30),
-              Floor("graph consumers examined", n_cons, 3)]
+              Floor("graph consumers examined", n_cons, 3), Floor("R-GIVEN truth-tested operands examined", n_truth, 300)]
     return {"obs": obs, "floors": floors,
             "explanation": "Decision tables of the validation prefix of Shaper.__init__ (graph sources 2^7, targets 2^4 x "
                            "all_classes_mode, or-flags, input format, compression x source kind, examples mode) and of "
